@@ -368,7 +368,10 @@ func (s *zzSim) finalChecks() {
 		s.mu.Lock()
 		done, success, resErr := p.done, p.success, p.resErr
 		s.mu.Unlock()
-		if !done && s.midCuts > 0 {
+		s.mu.Lock()
+		excusable := s.midCutsExcusable
+		s.mu.Unlock()
+		if !done && s.midCuts > 0 && excusable > 0 {
 			// Structural signature of a recorded lnd finding: the link's
 			// quit channel closed (peer disconnect) inside
 			// Switch.ForwardPackets between CommitCircuits and the
